@@ -135,7 +135,7 @@ def run(chk, tier):
     r = results[jobs[0][0]]
     systems = common.tagged(r.prints, "SYS")
     cases = common.tagged(r.prints, "REPLAY17")
-    if len(systems) < 5 or len(cases) < 5000:
+    if len(systems) < 5 or len(cases) < 3000:
         raise ToolError("MCStarkAlgebra printed %d systems / %d cases" % (len(systems), len(cases)))
     common.write_ndjson(o("c09_sys.ndjson"), systems)
     common.write_ndjson(o("c09_cases17.ndjson"), cases)
